@@ -58,10 +58,11 @@ class Path:
     phi: Dict[str, ast.AST] = field(default_factory=dict)  # loop-carried name -> value on loop entry (phi=True)
     phi_next: Dict[str, ast.AST] = field(default_factory=dict)  # loop-carried name -> value after one iteration, over the symbol itself
     loopstack: List[Tuple[str, ...]] = field(default_factory=list)  # target names of the enclosing loops, innermost last
+    loopsrc: List[ast.AST] = field(default_factory=list)  # their iterables
 
     def fork(self) -> "Path":
         p = Path(dict(self.env), list(self.guards), list(self.events), dict(self.loopvars),
-                 self.ret, self.ret_node, self.loop, dict(self.assigned), dict(self.attrs), dict(self.phi), dict(self.phi_next), list(self.loopstack))
+                 self.ret, self.ret_node, self.loop, dict(self.assigned), dict(self.attrs), dict(self.phi), dict(self.phi_next), list(self.loopstack), list(self.loopsrc))
         return p
 
 
@@ -288,7 +289,15 @@ class Walker:
         elif isinstance(target, ast.Subscript):
             self.ev(p, "store", node, subst(target, p.env), value)
             p.events[-1].raw = target
-            if self.track_stores and isinstance(target.value, ast.Name) and target.value.id in p.env:
+            cur = p.env.get(target.value.id) if isinstance(target.value, ast.Name) else None
+            if isinstance(cur, ast.Dict) and not isinstance(target.slice, (ast.Slice, ast.Tuple)):
+                # d[k] = v on a local dict literal: the literal grows (last writer wins, as in {**d, k: v})
+                val = value
+                if p.loopstack:
+                    val._iter_of = p.loopstack[-1]
+                    val._iter_src = p.loopsrc[-1]
+                p.env[target.value.id] = ast.Dict(keys=list(cur.keys) + [subst(target.slice, p.env)], values=list(cur.values) + [val])
+            elif self.track_stores and isinstance(target.value, ast.Name) and target.value.id in p.env:
                 # x[idx] = v  ==>  x := __store__(x, idx, v): later uses of x depend on v
                 old_v = p.env[target.value.id]
                 new_v = ast.Call(func=ast.Name(id="__store__", ctx=ast.Load()), args=[old_v, subst(target.slice, p.env), value], keywords=[])
@@ -340,7 +349,7 @@ class Walker:
         over a literal sequence they are unrolled exactly ([f(a), f(b)]); over anything else `[f(v) for v in xs]`
         becomes the one-iteration list [f(v)] with v registered as a loop variable over xs — the value an
         append-loop over xs gives under the walker's loop policy.  Generators over literal sequences become tuples."""
-        if v is None or not any(isinstance(n, (ast.ListComp, ast.GeneratorExp)) for n in ast.walk(v)):
+        if v is None or not any(isinstance(n, (ast.ListComp, ast.GeneratorExp, ast.DictComp)) for n in ast.walk(v)):
             return v
         walker = self
 
@@ -349,7 +358,25 @@ class Walker:
                 return node
 
             def visit_DictComp(self, node):
-                return node
+                if len(node.generators) != 1 or node.generators[0].ifs or node.generators[0].is_async:
+                    return node
+                g = node.generators[0]
+                it = self.visit(g.iter)
+                if isinstance(it, (ast.List, ast.Tuple)) and 1 <= len(it.elts) <= 8 and not any(isinstance(x, ast.Starred) for x in it.elts):
+                    keys, vals = [], []
+                    for e in it.elts:
+                        env = {}
+                        _bind(g.target, e, env)
+                        keys.append(self.visit(subst(node.key, env)))
+                        vals.append(self.visit(subst(node.value, env)))
+                    return ast.copy_location(ast.Dict(keys=keys, values=vals), node)
+                env = walker.bind_loop_target(p, g.target, it)
+                key = self.visit(subst(node.key, env) if env else node.key)
+                val = self.visit(subst(node.value, env) if env else node.value)
+                val._iter_of = tuple(n.id for n in ast.walk(g.target) if isinstance(n, ast.Name))
+                val._iter_src = it
+                p.guards.append((it, True, "for"))
+                return ast.copy_location(ast.Dict(keys=[key], values=[val]), node)
 
             def visit_SetComp(self, node):
                 return node
@@ -374,6 +401,7 @@ class Walker:
                     env = walker.bind_loop_target(p, g.target, it)
                     elt = self.visit(subst(node.elt, env) if env else node.elt)
                     elt._iter_of = tuple(n.id for n in ast.walk(g.target) if isinstance(n, ast.Name))
+                    elt._iter_src = it
                     p.guards.append((it, True, "for"))
                     return ast.copy_location(ast.List(elts=[elt], ctx=ast.Load()), node)
                 return self.generic_visit(node)
@@ -395,6 +423,16 @@ class Walker:
             p.env.pop(k, None)
             p.loopvars[k] = d
             env[v] = ast.Subscript(value=copy.deepcopy(d), slice=ast.Name(id=k, ctx=ast.Load()), ctx=ast.Load())
+        elif isinstance(target, ast.Name) and isinstance(it, ast.Call) and isinstance(it.func, ast.Attribute) and it.func.attr == "values" and not it.args and not it.keywords:
+            # for v in d.values()  ->  v := d[k] for a key k of d
+            v = target.id
+            d = it.func.value
+            k = f"_key_of_{v}"
+            p.loopvars[k] = d
+            env[v] = ast.Subscript(value=copy.deepcopy(d), slice=ast.Name(id=k, ctx=ast.Load()), ctx=ast.Load())
+        elif isinstance(target, ast.Name) and isinstance(it, ast.Call) and isinstance(it.func, ast.Attribute) and it.func.attr == "keys" and not it.args and not it.keywords:
+            p.env.pop(target.id, None)
+            p.loopvars[target.id] = it.func.value
         elif two and isinstance(it, ast.Call) and attr_chain(it.func) == "enumerate" and len(it.args) == 1 and not it.keywords:
             i, x = target.elts[0].id, target.elts[1].id
             xs = it.args[0]
@@ -433,6 +471,7 @@ class Walker:
         if meth == "append" and len(call.args) == 1:
             elt = self.comps(p, subst(call.args[0], p.env))
             elt._iter_of = p.loopstack[-1] if p.loopstack else ()  # the loop whose iterations produce this element
+            elt._iter_src = p.loopsrc[-1] if p.loopsrc else None
             p.env[name] = ast.List(elts=list(cur.elts) + [elt], ctx=ast.Load())
         elif meth == "extend" and len(call.args) == 1:
             arg = subst(call.args[0], p.env)
@@ -622,10 +661,12 @@ class Walker:
                 carried.append(name)
         p.loop += 1
         p.loopstack.append(tuple(n.id for n in ast.walk(s.target) if isinstance(n, ast.Name)) if isinstance(s, ast.For) else ())
+        p.loopsrc.append(it if isinstance(s, ast.For) else None)
         body = self.block(s.body, p)
         for bp, st in body:
             if bp.loopstack:
                 bp.loopstack.pop()
+                bp.loopsrc.pop()
             for name in carried:
                 if name in bp.env:
                     bp.phi_next[name] = bp.env[name]
